@@ -180,6 +180,7 @@ pub fn check_scan(ex: &Exec, s: SeqNo, got: &[(Key, Vec<u8>)], what: &str) -> R<
         match (e, gm.get(k)) {
             (Expect::Exact(Some((v, _))), Some(g)) => {
                 if &v != g {
+                    crate::exec::note_fail_key(k);
                     return Err(format!(
                         "{what} at {s}: key {} has value {} expected {}",
                         hex(k),
@@ -189,7 +190,8 @@ pub fn check_scan(ex: &Exec, s: SeqNo, got: &[(Key, Vec<u8>)], what: &str) -> R<
                 }
             }
             (Expect::Exact(Some(_)), None) => {
-                return Err(format!("{what} at {s}: live key {} missing from scan", hex(k)))
+                crate::exec::note_fail_key(k);
+                return Err(format!("{what} at {s}: live key {} missing from scan", hex(k)));
             }
             (Expect::Loose, Some(g)) => {
                 if !ex.model.was_ever_written(k, g) {
@@ -205,6 +207,7 @@ pub fn check_scan(ex: &Exec, s: SeqNo, got: &[(Key, Vec<u8>)], what: &str) -> R<
     let em: BTreeMap<&Key, &Expect> = exp.iter().map(|(k, e)| (k, e)).collect();
     for (k, _) in got {
         if !em.contains_key(k) {
+            crate::exec::note_fail_key(k);
             return Err(format!(
                 "{what} at {s}: scan yielded key {} which the model says is absent (deleted, overwritten-by-delete or never written)",
                 hex(k)
